@@ -127,7 +127,11 @@ fn c13_defs(out: &mut dyn Write, tier: &str, rng: &mut Rng, st: &mut Stats) {
             match with_ref { Some(r) => format!("({{{}}} {} ({}))", r, rng.pick(&["&", "|", "^", "=>"]), t), None => format!("({})", t) }
         };
         let t1 = term(rng, None);
-        let main_text = match h % 6 {
+        let main_text = match h % 9 {
+            // shapes whose result collapses onto the referenced diagram itself (a redundant test over it)
+            6 => format!("(a & {{r0}}) | (-a & {{r0}})"),
+            7 => format!("({} | {{r0}}) & {{r0}}", t1),
+            8 => format!("if {} then {{r0}} else {{r0}}", t1),
             0 => format!("{{r0}} {} {}", rng.pick(&["&", "|", "^", "=>", "<=>"]), t1),
             1 => format!("{} {} ({{r0}} {} {{r1}})", t1, rng.pick(&["&", "|", "^"]), rng.pick(&["&", "|", "=>"])),
             2 => format!("{} a # ({{r0}} {} {})", rng.pick(&["exists", "forall"]), rng.pick(&["&", "|"]), t1),
@@ -144,7 +148,12 @@ fn c13_defs(out: &mut dyn Write, tier: &str, rng: &mut Rng, st: &mut Stats) {
                 let which = if rng.chance(2, 3) { "r0" } else { "r1" };
                 let text = if which == "r0" && rng.chance(1, 3) { term(rng, Some("r1")) } else { term(rng, None) };
                 if let Some(d) = parse(&text) {
-                    pf.define(which, ReferenceContents::Syntax(d.bdd.clone()));
+                    // every third definition is given as the evaluated diagram of the other formula (nodes of another
+                    // environment), the others as its syntax
+                    // (not under a fixed point: substituting into a referenced diagram is `unimplemented!` by design)
+                    let as_bdd = h % 9 != 3 && (rng.chance(1, 3) || h % 9 >= 6) && !text.contains('{');
+                    let given = if as_bdd { match eval_guarded(&d) { Ok(b) => Some(ReferenceContents::BDD(b)), Err(_) => None } } else { None };
+                    match given { Some(g) => { pf.define(which, g); st.hit("defs.define.bdd"); } None => pf.define(which, ReferenceContents::Syntax(d.bdd.clone())) }
                     defs.retain(|(n, _)| n != which);
                     defs.push((which.to_string(), text));
                     st.hit("defs.define");
@@ -261,9 +270,26 @@ pub fn c13(out: &mut dyn Write, tier: &str, rng: &mut Rng, st: &mut Stats) {
         let mut steps: Vec<String> = Vec::new();
         let mut force_clean = 0;
         let mut dead = false;
+        // every third history starts by building two different diagrams with the same 64-bit hash (util::colliding)
+        // out of ordinary operations: `var k` and `not (var z)`, or `var k` and `var v | var z`
+        let mut forced: Vec<(&str, Vec<usize>)> = Vec::new();
+        if h % 3 == 1 && hash_model_ok() {
+            let k = rng.below(nvars) as usize;
+            let a = from_tt(2, &[k]);
+            if h % 2 == 1 {
+                if let Some((z, _)) = colliding(&a, 2, 0) { forced = vec![("var", vec![k]), ("var", vec![z]), ("not", vec![1]), ("not", vec![0]), ("not", vec![2]), ("not", vec![4])]; }
+            } else {
+                let v = nvars as usize + 1;
+                if let Some((z, _)) = colliding(&a, 0, v) { forced = vec![("var", vec![k]), ("var", vec![v]), ("var", vec![z]), ("or", vec![1, 2]), ("not", vec![0]), ("not", vec![3]), ("and", vec![0, 3])]; }
+            }
+            if !forced.is_empty() { st.hit("history.hash-collision"); }
+            forced.reverse();
+        }
         for _ in 0..len {
             if dead { break; }
-            let op: &str = if regs.len() < 3 { *rng.pick(&["c0", "c1", "var", "var"][..]) }
+            let fnow = forced.pop();
+            let op: &str = if let Some((o, _)) = &fnow { o }
+                else if regs.len() < 3 { *rng.pick(&["c0", "c1", "var", "var"][..]) }
                 else if force_clean > 0 { force_clean -= 1; "clean" }
                 else if rng.chance(1, 40) { "keepone" }
                 else if rng.chance(1, 8) { *rng.pick(&OPS2[..]) } else { *rng.pick(&OPS[..]) };
@@ -275,7 +301,9 @@ pub fn c13(out: &mut dyn Write, tier: &str, rng: &mut Rng, st: &mut Stats) {
             let mut lbi: Vec<usize> = Vec::new();
             let lhs: String = match op {
                 "c0" | "c1" => op.to_string(),
-                "var" => { vs.push(rng.below(nvars) as usize); format!("var {}", vs[0]) }
+                "var" => { vs.push(match &fnow { Some((_, v)) => v[0], None => rng.below(nvars) as usize }); format!("var {}", vs[0]) }
+                "not" if fnow.is_some() => { ai.push(fnow.as_ref().unwrap().1[0]); format!("not r{}", ai[0]) }
+                "or" | "and" if fnow.is_some() => { let v = &fnow.as_ref().unwrap().1; ai.push(v[0]); ai.push(v[1]); format!("{} r{} r{}", op, ai[0], ai[1]) }
                 "not" | "model" | "clean" => { ai.push(pickr(rng, &regs)); format!("{} r{}", op, ai[0]) }
                 "keepone" => {
                     // every handle but one is given up: prefer a constant so that nothing alive refers to the other leaf
